@@ -134,6 +134,23 @@ CtorsD(t, env, D) ==         \* sequence of constructor names; "null" = the null
                 [] t.name = "NonNullable" -> SelectSeq(CtorsD(t.args[1], env, D), LAMBDA c : c # "null")
                 [] OTHER -> <<"Object">>
 Ctors(t, env) == CtorsD(t, env, {})
+
+(* ---- the filtering utilities Extract<T, U> / Exclude<T, U> (at the top of a prop type) ---- *)
+(* Their values are the values of those union members of T that are (not) assignable to U; the emitted `type` *)
+(* must accept every such value and may only name constructors of the parts.  Assignability is decided on the *)
+(* constructor level, with Vue's rule that `Object` accepts every non-function object.                        *)
+ObjectKinds == BuiltinClasses \ {"Function"}
+AcceptsCtor(got, c) == c \in got \/ "ANY" \in got \/ ("Object" \in got /\ c \in ObjectKinds)
+UnionMembers(t) == IF t.k = "union" THEN t.types ELSE <<t>>
+IsFilter(t) == t.k = "ref" /\ t.name \in {"Extract", "Exclude"} /\ Len(t.args) = 2
+FilterInhab(t, env, D) ==
+  LET ms == UnionMembers(t.args[1])
+      cu == SeqSet(CtorsD(t.args[2], env, D))
+      fits(m) == \A c \in SeqSet(CtorsD(m, env, D)) : AcceptsCtor(cu, c)
+      keep == {j \in 1..Len(ms) : IF t.name = "Extract" THEN fits(ms[j]) ELSE ~fits(ms[j])}
+  IN UNION {SeqSet(CtorsD(ms[j], env, D)) : j \in keep}
+FilterParts(t, env, D) ==
+  SeqSet(CtorsD(t.args[1], env, D)) \cup (IF t.name = "Extract" THEN SeqSet(CtorsD(t.args[2], env, D)) ELSE {})
 NoCheck(t, env) == "ANY" \in SeqSet(Ctors(t, env))
 
 (* ---- C19: declared emitted events ---- *)
